@@ -909,4 +909,36 @@ theorem unique_size_eraseDups (a : List α) : uniqueSize a = a.eraseDups.length 
   unique_size_spec a a.eraseDups (nodup_eraseDups a) (fun x => List.mem_eraseDups)
 end
 
+
+/-! ## the bit masks of `ipaddress` -/
+
+/-- and-ing with the netmask `2^32 - 2^k` clears the `k` low bits (the arithmetic form `addrIn` uses) -/
+theorem and_netmask (ip k : Nat) (hip : ip < 2 ^ 32) (hk : k ≤ 32) :
+    ip &&& (2 ^ 32 - 2 ^ k) = ip / 2 ^ k * 2 ^ k := by
+  have hm : 2 ^ 32 - 2 ^ k = 2 ^ k * (2 ^ (32 - k) - 1) := by
+    have : 2 ^ 32 = 2 ^ k * 2 ^ (32 - k) := by rw [← Nat.pow_add]; congr 1; omega
+    rw [Nat.mul_sub, Nat.mul_one, ← this]
+  apply Nat.eq_of_testBit_eq
+  intro i
+  rw [Nat.testBit_and, hm, Nat.mul_comm (ip / 2 ^ k), Nat.testBit_two_pow_mul, Nat.testBit_two_pow_mul,
+    Nat.testBit_two_pow_sub_one, Nat.testBit_div_two_pow]
+  by_cases h1 : k ≤ i
+  · have e : i - k + k = i := by omega
+    simp only [h1, decide_true, Bool.true_and, e]
+    by_cases h2 : i - k < 32 - k
+    · simp [h2]
+    · have : 32 ≤ i := by omega
+      have : ip.testBit i = false := Nat.testBit_lt_two_pow (Nat.lt_of_lt_of_le hip (Nat.pow_le_pow_right (by decide) this))
+      simp [h2, this]
+  · simp [h1]
+
+theorem or_hostmask (n : Net) (h : n.WF) : n.addr ||| n.hostmask = n.bcast := by
+  obtain ⟨a, ha⟩ := aligned_mul h.2.2
+  have hlt : n.hostmask < 2 ^ (32 - n.len) := by
+    have := n.size_pos; simp only [Net.hostmask, Net.size] at *; omega
+  have := Nat.two_pow_add_eq_or_of_lt hlt a
+  simp only [Net.bcast]
+  rw [ha, Net.size, Nat.mul_comm a]
+  exact this.symm
+
 end Cel.C7n
